@@ -120,6 +120,7 @@ class NativeContract:
         Returns list of failure strings (empty = contract satisfied); None if requires is false."""
         ns = dict(self.ns)
         ns.update(names)
+        self.errors = []
         for code in self.req:
             if not eval(code, ns):  # noqa: S307
                 return None
@@ -141,7 +142,8 @@ class NativeContract:
                     try:
                         ok = eval(code, ns)  # noqa: S307
                     except Exception as e2:  # noqa: BLE001
-                        ok = False
+                        self.errors.append(f"raises[{allowed}] condition could not be evaluated natively ({e2!r})")
+                        ok = True
                     if not ok:
                         failures.append(f"raised {type(e).__name__} although its condition is false: {self.c.raises_src[allowed]}")
                     for k, code2 in enumerate(self.raises_ens.get(allowed, [])):
@@ -157,11 +159,52 @@ class NativeContract:
             try:
                 ok = eval(code, ns)  # noqa: S307
             except Exception as e:  # noqa: BLE001
-                failures.append(f"ensures[{k}] could not be evaluated natively ({type(e).__name__}: {e}): {self.c.ensures_src[k]}")
+                self.errors.append(f"ensures[{k}] could not be evaluated natively ({type(e).__name__}: {e})")
                 continue
             if not ok:
                 failures.append(f"ensures[{k}] false: {self.c.ensures_src[k]} (result={result!r})")
         return failures
+
+
+def build_object(reg, model, inp):
+    """generic native realiser of an object model: the real class without running __init__, modelled fields set as
+    attributes (nested models recursively); list / dict subclasses get their content from __list__ / __dict__"""
+    if model is None:
+        raise ValueError("no model")
+    if model.cls is None:
+        # a pure environment model (no real class): a plain namespace with the modelled fields
+        import types
+        from .values import ObjModel as _OM
+        ns = types.SimpleNamespace()
+        for name, val in inp.items():
+            if name.startswith("__"):
+                continue
+            sub = model.fields.get(name)
+            setattr(ns, name, build_object(reg, sub, val) if isinstance(sub, _OM) and isinstance(val, dict) else to_native(val))
+        return ns
+    relpath, cname = model.cls.split(":")
+    cls = getattr(import_real(relpath), cname)
+    if issubclass(cls, list):
+        obj = list.__new__(cls)
+        list.extend(obj, [to_native(x) for x in inp.get("__list__", [])])
+    elif issubclass(cls, dict):
+        obj = dict.__new__(cls)
+    else:
+        obj = object.__new__(cls)
+    for name, val in inp.items():
+        if name.startswith("__"):
+            continue
+        sub = model.fields.get(name)
+        from .values import ObjModel
+        if isinstance(sub, ObjModel) and isinstance(val, dict):
+            val = build_object(reg, sub, val)
+        else:
+            val = to_native(val)
+        try:
+            object.__setattr__(obj, name, val)
+        except Exception:  # noqa: BLE001
+            pass
+    return obj
 
 
 def to_native(x):
